@@ -14,7 +14,7 @@ func init() {
 	register(&explore.Prop{
 		ID: "C01", Level: levelMC, Explorer: "E1 input-space enumerator",
 		Rule: "every batch of scopes POST(N) x modes, TERM, FIELD, REP, MIX x modes, MANYTERMS, LARGE x modes is built with the real builder and its full observation compared with the reference model; " +
-			"distinct = distinct (mode, decoded batch); non-trivial = some postings list has >=2 postings, or a location, or a repeated field, or >=2 fields",
+			"further families (DESIGN.md 4, 5): NORMS, EXTREME (incl. postings of 65 535..65 537 locations, stored values of 5 and 9 MiB), HUGE 66 000 documents, ZOO-BUILT (the input batches of every ZOO member); distinct = distinct (mode, decoded batch); non-trivial = some postings list has >=2 postings, or a location, or a repeated field, or >=2 fields",
 		Assumptions: commonAssumptions, Budget: qBudget, Run: runC01,
 	})
 }
